@@ -253,30 +253,52 @@ def bake_branches(ctx):
 
 
 def count_paths(stmts, pred):
-    """(min, max) number of statements satisfying pred along a path through stmts (loops: body counted once)."""
-    lo = hi = 0
+    """(min, max) number of statements satisfying pred along a path through stmts that completes the step: paths that
+    fall off the end and paths that leave early with continue / break / return; paths that raise refuse the step and
+    are not counted (loops: body counted once or not at all)."""
+    fall, done = _path_counts(stmts, pred)
+    allc = fall | done
+    if not allc:
+        return 0, 0
+    return min(allc), max(allc)
+
+
+def _path_counts(stmts, pred):
+    fall, done = {0}, set()
     for s in stmts:
+        if not fall:
+            break
         if isinstance(s, ast.If):
-            a = count_paths(s.body, pred)
-            b = count_paths(s.orelse, pred)
+            k = sum(1 for n in ast.walk(s.test) if pred(n))
+            bf, bd = _path_counts(s.body, pred)
             if not s.orelse and _is_type_dispatch(s):
-                b = a           # a chain of isinstance tests over the possible operand types is exhaustive
-            lo += min(a[0], b[0])
-            hi += max(a[1], b[1])
+                of, od = set(), set()   # a chain of isinstance tests over the possible operand types is exhaustive
+            else:
+                of, od = _path_counts(s.orelse, pred)
+            nf, nd = bf | of, bd | od
         elif isinstance(s, (ast.For, ast.While)):
-            a = count_paths(s.body, pred)
-            hi += a[1]
+            k = 0
+            bf, bd = _path_counts(s.body, pred)
+            nf, nd = {0} | bf | bd, set()      # continue / break / return inside an inner loop: counted as leaving it
         elif isinstance(s, (ast.With, ast.Try)):
-            a = count_paths(s.body, pred)
-            lo += a[0]
-            hi += a[1]
+            k = 0
+            nf, nd = _path_counts(s.body, pred)
         elif isinstance(s, (ast.FunctionDef, ast.ClassDef)):
             continue
+        elif isinstance(s, ast.Raise):
+            fall = set()
+            break
+        elif isinstance(s, (ast.Continue, ast.Break, ast.Return)):
+            k = sum(1 for n in ast.walk(s) if pred(n))
+            done |= {c + k for c in fall}
+            fall = set()
+            break
         else:
             k = sum(1 for n in ast.walk(s) if pred(n))
-            lo += k
-            hi += k
-    return lo, hi
+            nf, nd = {0}, set()
+        done |= {c + k + d for c in fall for d in nd}
+        fall = {c + k + f for c in fall for f in nf}
+    return fall, done
 
 
 def _is_type_dispatch(s):
